@@ -9,7 +9,9 @@ EXPLANATION = ("Static rules over quinn-proto MIR: (a) decoder totality = the GU
                "exceptions); (c) transport-parameter tables agree: enum discriminants = TryFrom<u64> arms = SUPPORTED elements; write and read dispatch on the same "
                "id sets; (d) varint size/encode/decode agree on the 2^6/2^14/2^30 boundaries and tags; packet-number length tables agree; the packet-number "
                "expansion guard compares the candidate on both sides; (e) long-header type bits are inverse tables; (f) coalesced packets split at position+len and "
-               "truncated lengths are rejected. Round-trip equality for all values is value-level and NOT decided.")
+               "truncated lengths are rejected; (g) token addresses are written as given, tag tables inverse; (h) preferred_address halves absent <=> own placeholder; "
+               "(i) STREAM frames: OFF/LEN/FIN type bits <=> fields in StreamMeta::encode, the same masks and field reads in StreamInfo / Iter::try_next, range + length flag + room of one "
+               "poll_transmit at the encode site, and (shared with C01.e) the length field omitted only when the range fills that room. Round-trip equality for all values is value-level and NOT decided.")
 RULE = "rule instances = table-agreement comparisons and guarded-read sites; non-trivial = bound to real constants / sites"
 
 
@@ -1110,6 +1112,333 @@ def rule_h(ctx):
               'PreferredAddress::write does not emit the placeholder that read() maps back to None: ' + ('; '.join(why) or '%d of 4 writes recognised' % n))
 
 
+# --------------------------------------------------------------------------
+# (i) STREAM frame boundaries: OFF / LEN / FIN bits <=> fields on both sides; a frame written without a length field
+#     is the last thing in its room (the decoder takes every remaining byte as stream data)
+# --------------------------------------------------------------------------
+
+def _nobb(d):
+    """descriptor with call-site blocks erased: the same expression evaluated at two sites compares equal"""
+    if not isinstance(d, tuple):
+        return d
+    if d and d[0] == 'call' and len(d) > 4:
+        return ('call', d[1], d[2], tuple(_nobb(x) for x in d[3]))
+    if d and d[0] == 'bin' and len(d) > 4:
+        return ('bin', d[1], _nobb(d[2]), _nobb(d[3]))
+    return tuple(_nobb(x) for x in d)
+
+
+class _Relabel:
+    """a Ctx that records under another rule letter (a rule shared with another property keeps its instance names)"""
+
+    def __init__(self, ctx, rule):
+        self._c, self._r = ctx, rule
+
+    def __getattr__(self, n):
+        return getattr(self._c, n)
+
+    def ok(self, rule, *a, **k):
+        return self._c.ok(self._r, *a, **k)
+
+    def bad(self, rule, *a, **k):
+        return self._c.bad(self._r, *a, **k)
+
+    def check(self, cond, rule, *a, **k):
+        return self._c.check(cond, self._r, *a, **k)
+
+    def floor(self, rule, *a, **k):
+        return self._c.floor(self._r, *a, **k)
+
+    def info(self, rule, *a, **k):
+        return self._c.info(self._r, *a, **k)
+
+
+_CMP = {'Eq': lambda a, b: a == b, 'Ne': lambda a, b: a != b, 'Lt': lambda a, b: a < b, 'Le': lambda a, b: a <= b, 'Gt': lambda a, b: a > b, 'Ge': lambda a, b: a >= b}
+
+
+def _eval_leaf(d, leaf, t):
+    """integer value of d when every sub-tree satisfying `leaf` has the value t; comparisons yield 0 / 1; None = not decidable"""
+    if leaf(d):
+        return t
+    if d[0] == 'const':
+        return _ival(d[2]) if d[1] == 'int' else None
+    if d[0] == 'un' and d[1] == 'Not' and d[2][0] in ('bin', 'un') and (d[2][0] == 'un' or d[2][1] in _CMP):
+        v = _eval_leaf(d[2], leaf, t)
+        return None if v is None else 1 - v
+    if d[0] == 'bin':
+        a, b = _eval_leaf(d[2], leaf, t), _eval_leaf(d[3], leaf, t)
+        if a is None or b is None:
+            return None
+        if d[1] in _CMP:
+            return int(_CMP[d[1]](a, b))
+        return _OPS[d[1]](a, b) if d[1] in _OPS else None
+    return None
+
+
+def _flag_mask(F, body):
+    """m when the one-argument predicate `body` over a newtype of a byte returns `byte & m != 0` for all 256 bytes (any spelling)"""
+    rets = [x for _, x in ret_descs(F, body)]
+    leaf = lambda x: x[0] == 'field' and x[2] == '0' and _is_param(x[1], 1)
+    for m in (1, 2, 4, 8, 16, 32, 64, 128):
+        if rets and body.argc == 1 and all(_eval_leaf(x, leaf, t) == int(t & m != 0) for x in rets for t in range(256)):
+            return m
+    return None
+
+
+def _self_field(d, *names):
+    for f in reversed(names):
+        if d[0] != 'field' or d[2] != f:
+            return False
+        d = d[1]
+    return _is_param(d, 1)
+
+
+def _linear(d, sign=1, out=None):
+    """{term (call blocks erased): coefficient, None: constant} of a sum / difference tree"""
+    top = out is None
+    if top:
+        out = {}
+    if _bin(d, 'Add'):
+        _linear(d[2], sign, out)
+        _linear(d[3], sign, out)
+    elif _bin(d, 'Sub'):
+        _linear(d[2], sign, out)
+        _linear(d[3], -sign, out)
+    elif d[0] == 'const' and d[1] == 'int' and _ival(d[2]) is not None:
+        out[None] = out.get(None, 0) + sign * _ival(d[2])
+    else:
+        k = _nobb(d)
+        out[k] = out.get(k, 0) + sign
+    return {k: v for k, v in out.items() if v} if top else out
+
+
+def _cond_edges(body, brs, holds):
+    """([(Branch, target)] on which the condition holds, {(bb, target)} on which it does not) over the two-way branches
+    for which holds(Branch) -> True (condition = discriminant), False (condition = its negation), None (other branch)"""
+    pos, neg = [], set()
+    for br in brs:
+        h = holds(br)
+        if h is None or len(br.edges) != 2:
+            continue
+        t, f = (br.target(1), br.target(0)) if h else (br.target(0), br.target(1))
+        pos.append((br, t))
+        neg.add((br.bb, f))
+    return pos, neg
+
+
+def _always_via(body, pos, neg, sites, goal):
+    """with the condition true at every test (no `neg` edge taken) no path entry -> goal avoids every one of `sites`"""
+    return bool(pos) and bool(sites) and goal not in body.reachable_from(0, avoid=set(sites), avoid_edges=neg)
+
+
+def rule_i(ctx):
+    F = ctx.facts
+    FLAGS = ('OFF', 'LEN', 'FIN')
+    # ---- encoder: StreamMeta::encode(&self, length, out)
+    enc = ctx.pfn('StreamMeta::encode')
+    dx = describer(F, enc)
+    live = enc.live_blocks()
+    bools = [k for k in range(1, enc.argc + 1) if enc.locals[k][0] == 'bool']
+    ctx.check(len(bools) == 1 and enc.argc == 3, 'i', 'stream_encoder_found', enc, enc.where(), 'StreamMeta::encode(&self, length: bool, out)', 'StreamMeta::encode no longer takes one length flag and one buffer')
+    if len(bools) != 1 or enc.argc != 3:
+        return
+    lenk = bools[0]
+    outk = [k for k in (2, 3) if k != lenk][0]
+    brs = branches(F, enc)
+
+    def holds(name):
+        def h(br):
+            inner, neg = peel_not(br.desc)
+            if name == 'LEN' and _is_param(inner, lenk):
+                return not neg
+            if name == 'FIN' and _self_field(inner, 'fin'):
+                return not neg
+            rel = relation_on(br.desc, True)
+            if name == 'OFF' and rel is not None:
+                op, a, b = rel
+                start = lambda x: _self_field(x, 'offsets', 'start')
+                if op in ('Ne', 'Eq') and ((_is_c(a, 0) and start(b)) or (_is_c(b, 0) and start(a))):
+                    return op == 'Ne'
+                # unsigned: 0 < start <=> start != 0 ; start <= 0 <=> start == 0 ; 1 <= start ; start < 1
+                if (op == 'Lt' and _is_c(a, 0) and start(b)) or (op == 'Le' and _is_c(a, 1) and start(b)):
+                    return True
+                if (op == 'Le' and start(a) and _is_c(b, 0)) or (op == 'Lt' and start(a) and _is_c(b, 1)):
+                    return False
+            return None
+        return h
+    edges = {n: _cond_edges(enc, brs, holds(n)) for n in FLAGS}
+    base = lambda x: x[0] == 'call' and x[1] == 'RangeInclusive::start' and len(x[3]) == 1 and x[3][0][0] == 'const' and str(x[3][0][3]).endswith('STREAM_TYS')
+    # the frame type: the first thing written to the buffer; every bit OR-ed into it belongs to exactly one of the three conditions
+    writes = [c for c in enc.calls() if c.bb in live and len(c.args) == 2 and _is_param(arg_desc(F, c, 0), outk)]
+    tyw = [c for c in writes if _contains(arg_desc(F, c, 1), base)]
+    ctx.check(len(tyw) == 1 and all(enc.dominates(tyw[0].bb, c.bb) for c in writes), 'i', 'stream_type_written_first', enc, (tyw or [enc])[0].where(), 'one write of STREAM_TYS.start | bits, before every field',
+              'cannot locate the single frame-type write of StreamMeta::encode (%d candidates)' % len(tyw))
+    if len(tyw) != 1:
+        return
+    W = tyw[0]
+    ranges = {}
+    for p, c in F.consts.items():
+        if p.endswith('::frame::STREAM_TYS'):
+            m = re.search(r'start: (\d+)_u64, end: (\d+)_u64', str(c.get('val', '')))
+            if m:
+                ranges['STREAM_TYS'] = (int(m.group(1)), int(m.group(2)))
+    tv = evs(arg_desc(F, W, 1), None, enc, ranges)
+    lo, hi = ranges.get('STREAM_TYS', (0, -1))
+    ctx.check(tv is not None and tv == set(range(lo, hi + 1)) and hi - lo == 7, 'i', 'stream_types_cover_range', enc, W.where(), 'types written = STREAM_TYS = %s' % sorted(tv or ()),
+              'StreamMeta::encode writes types %s, the decoder accepts STREAM_TYS %d..=%d as STREAM' % (sorted(tv) if tv else 'that cannot be computed', lo, hi))
+    bits = {}
+    why = []
+    for i, j, pl, rv, line in enc.assigns():
+        if i not in live or rv[0] != 'bin':
+            continue
+        x = dx.rvalue(rv, i, j, 0)
+        if not (_bin(x, 'BitOr') and _contains(x, base)):
+            continue
+        ks = [_ival(y[2]) for y in (x[2], x[3]) if y[0] == 'const' and y[1] == 'int']
+        if len(ks) != 1 or ks[0] is None:
+            why.append('line %d: %s is not `type | <constant bit>`' % (line, D.render(x)[:80]))
+            continue
+        owners = [n for n in FLAGS if only_via(enc, edges[n][0], i)]
+        if len(owners) != 1:
+            why.append('line %d: bit %#x is set %s' % (line, ks[0], 'under no single one of the conditions offset != 0 / length / fin' if not owners else 'under several conditions'))
+            continue
+        bits.setdefault(owners[0], {}).setdefault(ks[0], []).append(i)
+    enc_bit = {}
+    for n in FLAGS:
+        if len(bits.get(n, {})) != 1:
+            why.append('%s: %s' % (n, 'no type bit is set under this condition' if not bits.get(n) else 'several bits %s' % sorted(bits[n])))
+            continue
+        k, sites = next(iter(bits[n].items()))
+        enc_bit[n] = k
+        if not _always_via(enc, edges[n][0], edges[n][1], sites, W.bb):
+            why.append('%s: the type can be written without bit %#x although the condition holds' % (n, k))
+    # fields: id always; offset <=> OFF; end - start <=> LEN; nothing else
+    want = {'OFF': lambda a: _self_field(a, 'offsets', 'start'),
+            'LEN': lambda a: _bin(a, 'Sub') and _self_field(a[2], 'offsets', 'end') and _self_field(a[3], 'offsets', 'start')}
+    fsites = {'ID': [], 'OFF': [], 'LEN': []}
+    for c in writes:
+        if c is W:
+            continue
+        a = arg_desc(F, c, 1)
+        kind = 'ID' if _self_field(a, 'id') else next((n for n, p in want.items() if p(a)), None)
+        if kind is None:
+            why.append('%s writes %s, which is neither the id, the offset nor end - start' % (c.where(), D.render(a)[:80]))
+        else:
+            fsites[kind].append(c.bb)
+    rets = enc.return_blocks()
+    if len(fsites['ID']) != 1 or any(r in enc.reachable_from(0, avoid=fsites['ID']) for r in rets):
+        why.append('the stream id is not written exactly once on every path')
+    for n in ('OFF', 'LEN'):
+        pos, neg = edges[n]
+        if not fsites[n] or not all(only_via(enc, pos, s) for s in fsites[n]):
+            why.append('%s: the field is %s' % (n, 'never written' if not fsites[n] else 'written on a path on which the condition (and so the type bit) is not established'))
+        elif any(not _always_via(enc, pos, neg, fsites[n], r) for r in rets):
+            why.append('%s: the condition holds (type bit set) on a path that does not write the field' % n)
+    order = [[W.bb], fsites['ID'], fsites['OFF'], fsites['LEN']]
+    for i in range(len(order)):
+        for j in range(i + 1, len(order)):
+            if any(a in enc.reachable_from(b) for a in order[i] for b in order[j]):
+                why.append('fields are not written in the order type, id, offset, length')
+    ctx.check(set(enc_bit) == set(FLAGS) and not why, 'i', 'stream_encoder_bits_iff_fields', enc, enc.where(),
+              'bits %s; offset written <=> OFF bit, end - start written <=> LEN bit <=> length flag' % sorted(enc_bit.items()),
+              'StreamMeta::encode: a STREAM type bit and the field it announces can disagree: ' + '; '.join(dict.fromkeys(why)))
+    # ---- decoder: StreamInfo masks and the STREAM arm of Iter::try_next
+    dec_bit = {n: _flag_mask(F, ctx.pfn('StreamInfo::' + f)) for n, f in (('OFF', 'off'), ('LEN', 'len'), ('FIN', 'fin'))}
+    ctx.check(None not in dec_bit.values() and dec_bit == enc_bit, 'i', 'stream_type_bits_agree', enc, enc.where(), 'StreamInfo masks = encoder bits %s' % sorted(dec_bit.items()),
+              'StreamInfo::{off,len,fin} test %s, StreamMeta::encode sets %s' % (sorted(dec_bit.items(), key=str), sorted(enc_bit.items())))
+    tn = ctx.pfn('Iter::try_next')
+    dt = describer(F, tn)
+    tbrs = branches(F, tn)
+    info = lambda x: x[0] == 'field' and x[2] == '0' and x[1][0] == 'variant' and x[1][2] == 'Some' and x[1][1][0] == 'call' and x[1][1][1] == 'FrameType::stream'
+
+    def on_info(f):
+        def h(br):
+            inner, neg = peel_not(br.desc)
+            if inner[0] == 'call' and inner[1] == 'StreamInfo::' + f and len(inner[3]) == 1 and info(inner[3][0]):
+                return not neg
+            return None
+        return h
+    payload_of = lambda x, f: x[0] == 'field' and x[2] == '0' and x[1][0] == 'variant' and x[1][1][0] == 'call' and _lastseg(x[1][1][1]) == f
+    aggs = []
+    for i, j, pl, rv, line in tn.assigns():
+        if i in tn.live_blocks() and rv[0] == 'agg' and rv[1][0] == 'adt' and rv[1][1].endswith('::frame::Stream'):
+            aggs.append((i, line, dt.rvalue(rv, i, j, 0)))
+    ctx.floor('i', 'stream_frame_decode_sites', len(aggs), 1)
+    for bb, line, x in aggs:
+        why = []
+        fld = dict(zip(x[4], x[3])) if len(x) > 4 else {}
+        if not {'id', 'offset', 'fin', 'data'} <= set(fld):
+            ctx.bad('i', 'stream_decoder_fields_iff_bits', tn, '%s:%d' % (tn.file, line), 'frame::Stream is not built in place from id / offset / fin / data')
+            continue
+        # data: take_len() <=> LEN bit, else everything that remains
+        pos, neg = _cond_edges(tn, tbrs, on_info('len'))
+        alts = flat(fld['data'])
+        tl = [a[1][1][4] for a in alts if payload_of(a, 'take_len') and len(a[1][1]) > 4]
+        tr = [a[4] for a in alts if a[0] == 'call' and a[1] == 'Iter::take_remaining' and len(a) > 4]
+        hl = on_info('len')
+        npos, nneg = _cond_edges(tn, tbrs, lambda br: None if hl(br) is None else not hl(br))
+        if len(tl) + len(tr) != len(alts) or not tl or not tr:
+            why.append('data is %s, not take_len() | take_remaining()' % D.render(fld['data'])[:120])
+        elif not (all(only_via(tn, pos, s) for s in tl) and _always_via(tn, pos, neg, tl, bb)):
+            why.append('the length-prefixed read is not taken exactly when StreamInfo::len() holds')
+        elif not (all(only_via(tn, npos, s) for s in tr) and _always_via(tn, npos, nneg, tr, bb)):
+            why.append('take_remaining() is not taken exactly when StreamInfo::len() does not hold')
+        # offset: read <=> OFF bit, else 0
+        pos, neg = _cond_edges(tn, tbrs, on_info('off'))
+        alts = flat(fld['offset'])
+        gv = [a[1][1][4] for a in alts if payload_of(a, 'get_var') and len(a[1][1]) > 4]
+        if len(gv) + sum(1 for a in alts if _is_c(a, 0)) != len(alts) or not gv or len(gv) == len(alts):
+            why.append('offset is %s, not get_var() | 0' % D.render(fld['offset'])[:120])
+        elif not (all(only_via(tn, pos, s) for s in gv) and _always_via(tn, pos, neg, gv, bb)):
+            why.append('the offset is not read exactly when StreamInfo::off() holds')
+        f = fld['fin']
+        if not (f[0] == 'call' and f[1] == 'StreamInfo::fin' and len(f[3]) == 1 and info(f[3][0])):
+            why.append('fin is %s, not StreamInfo::fin()' % D.render(f)[:80])
+        idr = [a[1][1][4] for a in flat(fld['id']) if payload_of(a, 'get') and len(a[1][1]) > 4]
+        if len(idr) != 1 or any(not tn.dominates(idr[0], s) or s == idr[0] for s in gv + tl + tr) or any(a in tn.reachable_from(b) for a in gv for b in tl + tr):
+            why.append('the fields are not read in the order id, offset, data')
+        ctx.check(not why, 'i', 'stream_decoder_fields_iff_bits', tn, '%s:%d' % (tn.file, line), 'id; offset <=> off(); take_len() <=> len(), else take_remaining(); fin()',
+                  'the STREAM arm of Iter::try_next does not read the fields the type bits announce: ' + '; '.join(why))
+    # ---- every encode site: range and flag of ONE poll_transmit; the room it was given is exactly what is left of the buffer
+    n = 0
+    for c in F.all_calls('quinn_proto'):
+        if not (c.is_('StreamMeta::encode') and len(c.args) == 3):
+            continue
+        n += 1
+        root = F.root_of(c.body)
+        meta, flag, out = arg_desc(F, c, 0), arg_desc(F, c, lenk - 1), arg_desc(F, c, outk - 1)
+        polled = lambda x, k: x[0] == 'field' and x[2] == k and x[1][0] == 'call' and x[1][1] == 'SendBuffer::poll_transmit' and len(x[1]) > 4
+        fld = dict(zip(meta[4], meta[3])) if meta[0] == 'agg' and len(meta) > 4 and meta[2].endswith('StreamMeta::StreamMeta') else {}
+        off = fld.get('offsets')
+        why = []
+        if off is None or not polled(off, '0'):
+            why.append('the frame range is %s, not the range returned by SendBuffer::poll_transmit' % (D.render(off)[:100] if off else D.render(meta)[:100]))
+        else:
+            P = off[1]
+            for a in flat(flag):
+                if not (_is_c(a, 1) or (polled(a, '1') and a[1] == P)):
+                    why.append('the length flag is %s, not the flag poll_transmit returned with this range (or `true`)' % D.render(a)[:100])
+            lin = _linear(P[3][1]) if len(P[3]) == 2 else {}
+            plus = [k for k, v in lin.items() if v > 0]
+            minus = {k: v for k, v in lin.items() if v < 0}
+            exp = {None: -1,
+                   ('call', 'Vec::len', 'std::vec::Vec::len', (_nobb(out),)): -1,
+                   ('call', 'VarInt::size', 'quinn_proto::varint::VarInt::size', (_nobb(fld.get('id', ())),)): -1}
+            if not (_is_param(out) and len(plus) == 1 and _is_param(plus[0]) and lin[plus[0]] == 1 and minus == exp):
+                why.append('poll_transmit is given the room %s, not <limit> - %s.len() - 1 - VarInt::size(<this frame\'s id>): a frame without length would not end where the room ends'
+                           % (D.render(P[3][1])[:160] if len(P[3]) == 2 else '?', D.render(out)[:20]))
+        ctx.check(not why, 'i', 'stream_encode_gets_polled_range_and_flag', root, c.where(), 'StreamMeta{offsets: P.0}.encode(P.1, buf), P = poll_transmit(limit - buf.len() - 1 - size(id))',
+                  'a STREAM frame is encoded with a range / length flag / room that do not belong together: ' + '; '.join(why))
+    ctx.floor('i', 'stream_encode_sites', n, 1)
+    # ---- SendBuffer::poll_transmit: the flag is false only when the range returned reaches the end of the room (rule shared with C01.e)
+    from rules import C01 as _c01
+    shared = getattr(_c01, 'rule_e_length', None)
+    if shared is None:
+        ctx.bad('i', 'length_omitted_only_when_frame_fills_room', 'rules.C01', '', 'the shared rule C01.rule_e_length is gone: the obligation is not checked')
+    else:
+        shared(_Relabel(ctx, 'i'))
+
+
 def run(ctx):
     _c03.guarded_reads(ctx, 'a')
     rule_a_scan(ctx)
@@ -1120,3 +1449,4 @@ def run(ctx):
     rule_f(ctx)
     rule_g(ctx)
     rule_h(ctx)
+    rule_i(ctx)
